@@ -8,7 +8,9 @@
      canon_sub                 identity except: set members ordered, parameter values padded to 4,
                                fields excluded by flags come back as defaults
      wf_subb / wf_hdrb         the bounds of the Rust types (array sizes, i32/u32/i64/u16 ranges),
-                               set members within base..base+255, parameter id <> PID_SENTINEL
+                               set members within base..base+255, SequenceNumberSet members < i64::MAX
+                               (i64::MAX is not a usable sequence number: set() ends there since
+                               6f37365), parameter id <> PID_SENTINEL
      C08_known_len             a submessage body or a padded parameter longer than 65535 bytes
      C08_known_reply           INFO_REPLY built with multicast_flag = true *)
 From DustDDS Require Import Base.Machine Base.Bytes Wire.WireModel Wire.WireProofs Wire.WireRoundProofs.
